@@ -39,9 +39,7 @@ def nameOk (n : Bytes) : Bool :=
 def shapeB : Phase → Bytes → Bool
   | .lt, w => w == [60]
   | .slash, w => w == [60, 47]
-  | .name, 60 :: 47 :: n => nameOk n
-  | .name, 60 :: n => nameOk n
-  | .name, _ => false
+  | .name, w => w.head? == some 60 && (nameOk (w.drop 1) || (w[1]? == some 47 && nameOk (w.drop 2)))
 
 /-- `<`, `</`, or `<`[`/`] followed by a partial tag name -/
 def isTagHeadPrefix (w : Bytes) : Bool := shapeB .lt w || shapeB .slash w || shapeB .name w
